@@ -21,9 +21,10 @@ def _names(t):
 def check_history(job):
     """Implementation-side statement of C09 with an independent abstract container (python lists).
     returns list of failure dicts (each with 'class' for known-finding matching)"""
-    labels, ops, npre = job
+    labels, ops, npre = job[:3]
     from pydbml.classes import Table, Reference, Enum, TableGroup, Project, StickyNote, Column, Index
-    it = pyscript.Interp([])
+    # job[3]: every object is an instance of a trivial user subclass of its library class (a subclass of Table is a table)
+    it = pyscript.Interp([], subclass=(len(job) > 3 and job[3]))
     for op in ops[:npre]:
         t, o = it.run_op(op)
         it.slots.append(o)
@@ -133,6 +134,29 @@ def check_history(job):
                 fail('non-validation exception', '%s -> %s' % (op, exc), cls)
             if before != after:
                 fail('rejected operation changed the state', '%s -> %s' % (op, exc), cls)
+            # the property lists what is rejected; anything else must be accepted
+            if target_db and not taints and op.code == 30:
+                legal = False
+                if isinstance(obj, Table):
+                    legal = not any(obj is t for t in spec['tables']) and not any(obj == t for t in spec['tables']) \
+                        and not any(k in [x for t in spec['tables'] for x in _names(t)] for k in _names(obj))
+                elif isinstance(obj, Enum):
+                    legal = not any((e.name, e.schema) == (obj.name, obj.schema) for e in spec['enums'])
+                elif isinstance(obj, TableGroup):
+                    legal = not any(g.name == obj.name for g in spec['groups'])
+                elif isinstance(obj, (StickyNote, Project)):
+                    legal = True
+                elif isinstance(obj, Reference):
+                    try:
+                        legal = any(c.table is not None and any(c.table is t for t in spec['tables'])
+                                    for c in list(obj.col1) + list(obj.col2)) and not any(obj == x for x in spec['refs'])
+                    except Exception:   # noqa
+                        legal = False
+                if legal:
+                    fail('an addition the property does not list as rejected was refused', '%s -> %s' % (op, exc), cls)
+            if target_db and not taints and op.code == 40 and op.args[0] == 0:
+                if any(obj is x for k_ in ('tables', 'refs', 'enums', 'groups') for x in spec[k_]):
+                    fail('deleting a contained object was refused', '%s -> %s' % (op, exc), cls)
         elif op.code == 30 and not target_db and text != 'skip':
             removed[:] = [x for x in removed if x is not obj]     # now legitimately owned by the other database
         elif target_db and text != 'skip':
@@ -272,8 +296,12 @@ def run(v, tier, st, pr):
     jobs = list(gen_container.histories(r, tier))
     res = stream_script.compare([([], ops) for _, ops, _ in jobs], 'container', tags=[l for l, _, _ in jobs])
     ctx = mp.get_context('fork')
+    sub_jobs = [(l, ops, npre, True) for i, (l, ops, npre) in enumerate(jobs) if i % 6 == 0]
     with ctx.Pool(NPROC) as pool:
-        allf = pool.map(check_history, jobs, chunksize=max(1, len(jobs) // (NPROC * 8)))
+        allf = pool.map(check_history, jobs + sub_jobs, chunksize=max(1, len(jobs) // (NPROC * 8)))
+    for fl in allf[len(jobs):]:
+        for f in fl:
+            f['history'] = ['<every object an instance of a trivial subclass of its class>'] + list(f['history'])
     kf = [f for f in load_known_findings()['findings'] if f['property'] == 'C09']
     known_classes = {f['id'] for f in kf}
     new = []
@@ -297,5 +325,6 @@ def run(v, tier, st, pr):
                           'alphabet up to the tier depth plus random sequences (length <= 20) over a 75-operation alphabet; each compared '
                           'observation by observation with the Coq model and checked against an independent abstract container; distinct = distinct complete observation traces')
     v.coverage['samples'] = [{'history': jobs[i][0]} for i in (40, 700, len(jobs) - 1)]
+    v.coverage['histories_replayed_with_subclass_instances'] = len(sub_jobs)
     v.coverage['oracle_failures_known'] = {k: seen_known[k]['history'] for k in seen_known}
     v.coverage['explanation'] = 'invariant / atomicity theorems over the Coq container model; model tied to the code by stream container; independent python container spec as oracle'
